@@ -261,7 +261,7 @@ func c08Check(sp lib.Spec) lib.Obs {
 		return o
 	}
 	lib.SafeVal(s.UsedUserTypes)
-	return lib.Safe(s.Check)
+	return lib.CheckObs(s)
 }
 
 func c08Run(c *mon.Ctx, unit int) {
